@@ -392,8 +392,6 @@ def unit1(ctx, g, seen_cls, fail_cls):
             if a[0] != "ok" or a[1] != rt or int(a[2]) != r[2]:
                 ctx.disagree("LayerInfoBlock (mutated bytes): read() structure / cursor != model dec",
                              {"bytes": hx(bb)[:400], "version": v, "py": _short(rt), "model": _short(a[1]) if len(a) > 1 else a})
-        elif r[1] == "OverflowError":
-            ctx.hist("payload_outside_model", "fp.read(n) with n >= 2**63 (CPython: OverflowError; the skeleton's lenient read takes any n)")
         elif a[0] != "err" or a[1] != r[1]:
             ctx.disagree("LayerInfoBlock (mutated bytes): exception class of read != model dec",
                          {"bytes": hx(bb)[:400], "version": v, "py": r[1], "model": a[:2], "mutation": how})
@@ -490,8 +488,6 @@ def unit1(ctx, g, seen_cls, fail_cls):
                 continue
             if a[0] != "ok" or a[1] != rt or int(a[2]) != r[2]:
                 ctx.disagree("typed TaggedBlock (mutated bytes): structure / cursor != model dec", {"bytes": hx(bb)[:400], "model": a[:1]})
-        elif r[1] == "OverflowError":
-            ctx.hist("payload_outside_model", "fp.read(n) with n >= 2**63 (CPython: OverflowError; the skeleton's lenient read takes any n)")
         elif a[0] != "err" or a[1] != r[1]:
             ctx.disagree("typed TaggedBlock (mutated bytes): exception class != model dec",
                          {"bytes": hx(bb)[:400], "py": r[1], "model": a[:2], "mutation": how, "version": v, "padding": pad})
@@ -858,8 +854,6 @@ def run_spec(ctx, spec, harvested, seen_cls, fail_cls, excluded_log):
                 ctx.disagree(f"{nm} (mutated bytes): read() structure / cursor != model dec",
                              {"bytes": hx(bb)[:400], "py": _short(rt), "model": _short(a[1]) if len(a) > 1 else a,
                               "py_pos": r[2], "model_pos": a[2] if len(a) > 2 else None})
-        elif r[1] == "OverflowError":
-            ctx.hist("payload_outside_model", "fp.read(n) with n >= 2**63 (CPython: OverflowError; the skeleton's lenient read takes any n)")
         elif a[0] != "err" or a[1] != r[1]:
             ctx.disagree(f"{nm} (mutated bytes): exception class of read != model dec",
                          {"bytes": hx(bb)[:400], "py": r[1], "model": a[:2], "mutation": how})
@@ -2322,9 +2316,8 @@ def _run(ctx):
                                     "filter effects, engine data, image-resource payloads, ...) are opaque bytes in the model") for a in ctx.assumptions]
     ctx.assumptions += [
         "payload classes: doubles are compared as 64-bit patterns; pascal strings (Annotation) are their MacRoman bytes (C19)",
-        "payload classes: CPython's fp.read(n) raises OverflowError for n >= 2**63 (ssize_t); the cursor readers of Model/Codec.lean "
-        "take any natural n. Mutated encodings on which the real reader raises OverflowError (an 8-byte length field overwritten "
-        "with a value >= 2**63) are counted under payload_outside_model and not compared",
+        "payload classes: CPython's OverflowError for fp.read(n) / fp.seek(n) with n >= 2**63 is in the model (Codec.overflows: "
+        "readLenBlock, readPy, the payload models' readSized) and compared like every other exception class",
     ]
     ctx.extra["payload_phase_seconds"] = round(time.time() - t0, 1)
     ctx.rule += (
